@@ -33,7 +33,7 @@ ASSUMPTIONS = [
     "mixed get_sample/get_series sequences are only compared between same-seed twins (transparency of the prefetch is not promised)",
 ]
 
-SPECIAL_N = [0, 0, 0, 1, 1, 2, 3, 7, 64, 4095, 4096, 4097]
+SPECIAL_N = [0, 0, 0, 1, 1, 2, 3, 7, 64, 1024, 2048, 2048, 4095, 4096, 4096, 4097, 8191, 8192, 8192, 8193, 16384]
 KINDS = ["white", "red", "alpha", "pink"]
 
 
@@ -310,7 +310,8 @@ def execute(sc, out):
                     out.violate("shape_dtype", site, f"get_series({n}) returned {type(a).__name__} shape={getattr(a, 'shape', None)} dtype={getattr(a, 'dtype', None)}")
                     dead[g] = True
                     continue
-                a = np.array(a, copy=True)
+                # keep the returned array itself (no defensive copy): a caller concatenates the blocks later, so a block
+                # that the generator recycles for a later request corrupts the stream the caller sees
             else:
                 a = np.array([inst[g].get_sample() for _ in range(n)], dtype=np.float64)
         except Exception as e:
@@ -457,7 +458,7 @@ def _cascade_kernel_check(sc, out):
         a = np.column_stack([(1.0 + np.pi * fhi) / den, -(1.0 - np.pi * fhi) / den])
         b = np.column_stack([np.ones(nsec), -(1.0 - np.pi * flo) / den])
     zi0 = nprng.normal(size=(nsec, 1))
-    chunks = [rk.choice([0, 1, 2, 5, 33, 400]) for _ in range(rk.randrange(1, 5))]
+    chunks = [rk.choice([0, 1, 2, 5, 33, 400, 400, 8192]) for _ in range(rk.randrange(1, 5))]
     x = nprng.normal(size=sum(chunks))
     for variant in ("compiled", "py_func"):
         f = fn if variant == "compiled" else getattr(fn, "py_func", None)
